@@ -131,6 +131,13 @@ class Model:
                         if isinstance(t, ast.Name):
                             assigns[t.id] = st.value
             self.module_assigns[rel] = assigns
+            imps = set()
+            for st in ast.walk(tree):
+                if isinstance(st, ast.Import):
+                    for al in st.names:
+                        imps.add((al.asname or al.name).split(".")[0])
+            self.module_imports = getattr(self, "module_imports", {})
+            self.module_imports[rel] = imps
 
     # ------------------------------------------------------------------ link
     def _link(self):
